@@ -77,6 +77,19 @@ Example c09_nonvacuous :
   r_pinst s = r_pinst (fresh c) /\ length (r_heap s) = length (c_progs c).
 Proof. exact c09_nonvacuous_l. Qed.
 
+(* ... and so does a periodic (INTERVAL) task: last_run is re-created at the restarted clock, so every later clock trace runs the task
+   exactly when a freshly built runtime runs it *)
+Theorem restarted_periodic_task_equals_fresh : forall iv f now s tr,
+  per_run false iv (per_step false iv f now s ERestart) tr = per_run false iv per_fresh tr.
+Proof. exact restarted_periodic_task_is_fresh. Qed.
+Theorem periodic_task_keeping_last_run_refuted :
+  let iv := 10000000%Z in
+  let before := [(false, 10000000, ECycle); (false, 20000000, ECycle); (false, 30000000, ECycle)]%Z in
+  let after := [(false, 10000000, ECycle); (false, 20000000, ECycle)]%Z in
+  p_count (per_run true iv (per_step true iv false 0 (per_run true iv per_fresh before) ERestart) after) = 0%Z /\
+  p_count (per_run true iv per_fresh after) = 2%Z /\
+  p_count (per_run false iv (per_step false iv false 0 (per_run false iv per_fresh before) ERestart) after) = 2%Z.
+Proof. exact kept_last_run_is_not_fresh. Qed.
 Print Assumptions warm_keeps_exactly_retained_globals.
 Print Assumptions warm_keeps_exactly_retained_program_vars.
 Print Assumptions cold_equals_fresh.
@@ -88,4 +101,6 @@ Print Assumptions power_cycle_equals_warm_globals.
 Print Assumptions power_cycle_equals_warm_program_vars.
 Print Assumptions globals_only_store_refuted.
 Print Assumptions restarted_event_task_equals_fresh.
+Print Assumptions restarted_periodic_task_equals_fresh.
+Print Assumptions periodic_task_keeping_last_run_refuted.
 Print Assumptions kept_edge_latch_refuted.
